@@ -179,6 +179,59 @@ def raw(atoms):
     return out
 
 
+IBUF_SIZE = 4096     # sizeof(ibuf), term.c (the model's IBUFSZ is regenerated from it; the classifier below only needs the number)
+
+
+def nbytes(atoms):
+    return len(raw(atoms).encode('utf-8'))
+
+
+def clip_site(case):
+    """Reference for KF-PUSH-CLIP, computed from the INPUT alone: the first `.` / `@r` site of the program whose copies do not fit into the
+    key queue at the moment it runs (count x bytes of the pushed keys > sizeof(ibuf) - ibuf_cnt), or None.  The queue is simulated on atoms:
+    keys typed at the terminal are read one by one with the queue drained, each such read sets ibuf_cnt = 1; keys that come out of the queue
+    do not lower ibuf_cnt (the read part is reclaimed only when the queue has drained, 098bcee); a site pushes count copies in front."""
+    macros = case['macros']
+    queue = []                      # atoms still unread in ibuf
+    tin = list(case['atoms'])       # atoms still to be typed
+    cnt = 0                         # ibuf_cnt
+    rep = None
+    last_reg = None
+    steps = 0
+    while queue or tin:
+        steps += 1
+        if steps > 200000:
+            return None
+        if queue:
+            a = queue.pop(0)
+        else:
+            a = tin.pop(0)
+            if nbytes([a]) > 0:
+                cnt = 1             # the last typed key left ibuf_cnt = ibuf_pos = 1
+        k = a[0]
+        if k == 'change':
+            rep = a
+            continue
+        if k == 'keys':
+            continue
+        if k == 'dot':
+            body = [rep] if rep is not None else []
+        else:
+            r = a[2] if a[2] != '@' else last_reg
+            if r is None or r not in macros:
+                continue
+            last_reg = r
+            body = list(macros[r])
+        n = max(1, a[1])
+        need = n * nbytes(body)
+        room = IBUF_SIZE - cnt
+        if need > room:
+            return {'site': raw([a]), 'count': n, 'bytes_per_copy': nbytes(body), 'room': room}
+        queue = body * n + queue
+        cnt += need
+    return None
+
+
 def has_nested(case):
     return any(a[0] in ('dot', 'exec') for m in case['macros'].values() for a in m)
 
@@ -615,11 +668,21 @@ def run(ctx):
             res.nontriv(json.dumps([case['text'][:2], p]))
         if i % 499 == 0:
             res.sample({'P': p, 'retyped': q, 'same': a == b})
+        over = clip_site(case)
+        if over is not None:
+            res.count('over-capacity programs (count x length > room of the key queue)')
         if mout is not None:
             want = vlib.hx(q.encode('utf-8'))
-            if mout[i] != want:
+            if mout[i] != want and not (over is not None and mout[i] == 'clipped'):
                 res.disagree({'what': 'model expansion of P differs from the retyped program', 'input': case, 'P': p, 'retyped': q,
                               'model': vlib.unhx(mout[i]).decode('utf-8', 'replace') if mout[i] not in ('?', '') else mout[i]})
+        if (isinstance(a, str) or isinstance(b, str) or a != b) and over is not None:
+            # KNOWN_FINDINGS.txt KF-PUSH-CLIP: recognised from the input (clip_site), not from the way the runs differ
+            res.violation({'what': 'count x length of the keys pushed by N. / N@r exceeds the free room of the 4096-byte key queue: term_push drops the '
+                                   'tail, the program runs fewer (or a truncated last) copies than the retyped one (first: %s, %d x %d bytes, room %d)'
+                                   % (over['site'], over['count'], over['bytes_per_copy'], over['room']),
+                           'input': case, 'P': p}, kf='KF-PUSH-CLIP') and res.count('KF-PUSH-CLIP not listed: reported as violation')
+            continue
         if isinstance(a, str) or isinstance(b, str) or a != b:
             if nviol < 3 and not ctx.replay and len(case['atoms']) > 2:
                 small = vlib.shrink(case['atoms'], lambda at: fails(dict(case, atoms=at)))
